@@ -20,7 +20,9 @@ import (
 	"github.com/smartcontractkit/libocr/offchainreporting2plus/ocr3types"
 	libocrtypes "github.com/smartcontractkit/libocr/ragep2p/types"
 
+	"github.com/smartcontractkit/chainlink-ccip/execute/costlymessages"
 	"github.com/smartcontractkit/chainlink-ccip/execute/exectypes"
+	"github.com/smartcontractkit/chainlink-ccip/execute/tokendata"
 	"github.com/smartcontractkit/chainlink-ccip/internal/mocks"
 	"github.com/smartcontractkit/chainlink-ccip/pkg/consts"
 	"github.com/smartcontractkit/chainlink-ccip/pkg/contractreader"
@@ -413,6 +415,266 @@ func TestVerif_C15_accept_exec(t *testing.T) {
 			in := cTup(cNi(1), cListN(srcs), rem.Coq(), cTup(cNi(0), cNi(0), cNi(0), "true", "false", cNi(0)))
 			sink.Emit("C15_acc_exec", cls, len(srcs) > 0, cPair(in, cNi(o)), map[string]any{"srcs": srcs, "step": st})
 			i++
+		}
+	}
+}
+
+// ===================================================================================================
+// Plugin level: execute.Plugin.Observation (real Plugin via NewPlugin, real chain support over the fake home chain) in
+// every phase of the execute cycle, under a curse state that changes between the rounds, and the acceptance of the
+// report the cycle leads to.
+// ===================================================================================================
+func TestVerif_C15_cycle_exec(t *testing.T) {
+	ctx := context.Background()
+	r := vNewRand(vSeed() + 20)
+	n := vEnvInt("VERIF_N", 300)
+	sink := vOpenSink("C15_cyc_exec")
+	defer sink.Close()
+	asink := vOpenSink("C15_cyc_acc_exec")
+	defer asink.Close()
+	codec := mocks.NewExecutePluginJSONReportCodec()
+	pool := []uint64{1, 2, 3, 5, 8, 13}
+	i := 0
+	for i < n {
+		k := r.Range(0, 5)
+		perm := r.Perm(len(pool))
+		var known []uint64
+		for x := 0; x < k; x++ {
+			known = append(known, pool[perm[x]])
+		}
+		sup := vPick(r, []int{1, 1, 1, 1, 1, 0})
+		hc := vNewHomeChain()
+		me := commontypes.OracleID(1)
+		m := map[commontypes.OracleID]libocrtypes.PeerID{me: vPeer(1), 2: vPeer(2)}
+		destPeers := []libocrtypes.PeerID{vPeer(2)}
+		if sup == 1 {
+			destPeers = append(destPeers, vPeer(1))
+		}
+		hc.SetChain(900, 1, destPeers)
+		for _, c := range known {
+			hc.SetChain(cciptypes.ChainSelector(c), 1, []libocrtypes.PeerID{vPeer(1), vPeer(2)})
+		}
+		rem := &vC15Remote{}
+		var pending []uint64
+		counts := map[uint64]int{}
+		pendErr := false
+		mkReports := func() []plugintypes2.CommitPluginReportWithMeta {
+			var out []plugintypes2.CommitPluginReportWithMeta
+			for _, c := range pending {
+				for x := 0; x < counts[c]; x++ {
+					out = append(out, plugintypes2.CommitPluginReportWithMeta{
+						Timestamp: time.Unix(1000+int64(x), 0), BlockNum: uint64(10 + x),
+						Report: cciptypes.CommitPluginReport{MerkleRoots: []cciptypes.MerkleRootChain{{
+							ChainSel:     cciptypes.ChainSelector(c),
+							SeqNumsRange: cciptypes.NewSeqNumRange(cciptypes.SeqNum(1+10*x), cciptypes.SeqNum(10+10*x)),
+							MerkleRoot:   cciptypes.Bytes32{byte(x + 1)}}}}})
+				}
+			}
+			return out
+		}
+		rd := &vCCIPReader{
+			CurseFn: func(d cciptypes.ChainSelector, s []cciptypes.ChainSelector) (*readerpkg.CurseInfo, error) {
+				return rem.Fn(d, s)
+			},
+			CommitReportsFn: func(dest cciptypes.ChainSelector, ts time.Time, limit int) ([]plugintypes2.CommitPluginReportWithMeta, error) {
+				if pendErr {
+					return nil, vErr
+				}
+				return mkReports(), nil
+			},
+			MsgsFn: func(chain cciptypes.ChainSelector, rg cciptypes.SeqNumRange) ([]cciptypes.Message, error) {
+				var out []cciptypes.Message
+				for s := rg.Start(); s <= rg.End(); s++ {
+					out = append(out, cciptypes.Message{Header: cciptypes.RampMessageHeader{
+						MessageID: cciptypes.Bytes32{byte(chain), byte(s)}, SourceChainSelector: chain, DestChainSelector: 900, SequenceNumber: s},
+						Sender: []byte{byte(chain), 7}})
+				}
+				return out, nil
+			},
+			NoncesFn: func(source, dest cciptypes.ChainSelector, addrs []string) (map[string]uint64, error) {
+				out := map[string]uint64{}
+				for _, a := range addrs {
+					out[a] = 1
+				}
+				return out, nil
+			},
+		}
+		p := NewPlugin(1, ocr3types.ReportingPluginConfig{F: 1, N: 4, OracleID: me},
+			pluginconfig.ExecuteOffchainConfig{BatchGasLimit: 100000000, MessageVisibilityInterval: *commonconfig.MustNewDuration(8 * time.Hour)},
+			900, m, rd, codec, mocks.NewMessageHasher(), hc, &tokendata.NoopTokenDataObserver{}, nil, mocks.NullLogger,
+			costlymessages.NewObserver(mocks.NullLogger, false, nil, nil))
+		p.discovery = nil // contract discovery is not part of this property (otherwise only discovery data is observed)
+		cycles := r.Range(1, 2)
+		for cy := 0; cy < cycles && i < n; cy++ {
+			var agreed []exectypes.CommitData // pending commit reports the cycle agreed on after its first round
+			prevState := vPick(r, []exectypes.PluginState{exectypes.Unknown, exectypes.Initialized, exectypes.Filter})
+			for ph := 1; ph <= 3 && i < n; ph++ {
+				pending = pending[:0]
+				counts = map[uint64]int{}
+				for _, c := range known {
+					if r.Chance(2, 3) {
+						pending = append(pending, c)
+						counts[c] = r.Range(1, 3)
+					}
+				}
+				outside := r.Chance(1, 8)
+				if outside {
+					pending = append(pending, 21)
+					counts[21] = 1
+				}
+				pendErr = ph == 1 && r.Chance(1, 12)
+				var cls string
+				rem, cls = vC15GenRemote(r, append(append([]uint64{}, known...), pending...))
+				if outside && r.Bool() {
+					rem.cursed[21] = true
+					cls += "+unknown-cursed"
+				}
+				hc.CfgErr = ph == 1 && r.Chance(1, 25)
+				var prev exectypes.Outcome
+				switch ph {
+				case 1:
+					// the last outcome of the previous cycle: its pending commit reports are leftovers that must not leak
+					var left []exectypes.CommitData
+					if prevState == exectypes.Filter {
+						for _, c := range known {
+							if r.Bool() {
+								left = append(left, exectypes.CommitData{SourceChain: cciptypes.ChainSelector(c),
+									SequenceNumberRange: cciptypes.NewSeqNumRange(1, 10), MerkleRoot: cciptypes.Bytes32{9}, Timestamp: time.Unix(900, 0), BlockNum: 9})
+							}
+						}
+					}
+					prev = exectypes.NewOutcome(prevState, left, cciptypes.ExecutePluginReport{})
+				case 2:
+					prev = exectypes.NewOutcome(exectypes.GetCommitReports, agreed, cciptypes.ExecutePluginReport{})
+				default:
+					prev = exectypes.NewOutcome(exectypes.GetMessages, agreed, cciptypes.ExecutePluginReport{})
+				}
+				pb, err := prev.Encode()
+				if err != nil {
+					t.Fatal(err)
+				}
+				// what the previous outcome carries, per chain
+				prevCounts := map[uint64]int{}
+				for _, cd := range agreed {
+					prevCounts[uint64(cd.SourceChain)]++
+				}
+				ob, err := p.Observation(ctx, ocr3types.OutcomeContext{SeqNr: uint64(10 + ph), PreviousOutcome: pb}, nil)
+				out := cNone()
+				var obs exectypes.Observation
+				if err == nil {
+					obs, err = exectypes.DecodeObservation(ob)
+					if err != nil {
+						t.Fatal(err)
+					}
+					var ck, mk, nk []uint64
+					for c := range obs.CommitReports {
+						ck = append(ck, uint64(c))
+					}
+					for c := range obs.Messages {
+						mk = append(mk, uint64(c))
+					}
+					for c := range obs.Nonces {
+						nk = append(nk, uint64(c))
+					}
+					vSortU64(ck)
+					vSortU64(mk)
+					vSortU64(nk)
+					out = cSome(cTup(
+						cMap(ck, func(c uint64) string { return cPair(cN(c), cNi(len(obs.CommitReports[cciptypes.ChainSelector(c)]))) }),
+						cMap(mk, func(c uint64) string { return cPair(cN(c), cNi(len(obs.Messages[cciptypes.ChainSelector(c)]))) }),
+						cListN(nk)))
+				}
+				supQ, knownQ := sup, cSome(cListN(known))
+				if hc.CfgErr {
+					supQ, knownQ = 2, cNone()
+				}
+				pendQ := cNone()
+				if ph == 1 {
+					if !pendErr {
+						ps := append([]uint64{}, pending...)
+						vSortU64(ps)
+						pendQ = cSome(cMap(ps, func(c uint64) string { return cPair(cN(c), cNi(counts[c])) }))
+					}
+				} else {
+					var ps []uint64
+					for c := range prevCounts {
+						ps = append(ps, c)
+					}
+					vSortU64(ps)
+					pendQ = cSome(cMap(ps, func(c uint64) string { return cPair(cN(c), cNi(prevCounts[c])) }))
+				}
+				label := []string{"", "getcommitreports", "getmessages", "filter"}[ph]
+				if ph > 1 || cy > 0 {
+					cls = "history/" + cls
+				}
+				in := cTup(cNi(ph), cNi(supQ), knownQ, rem.Coq(), pendQ)
+				sink.Emit("C15_cyc_exec", label+"/"+cls, len(known) >= 2 && sup == 1, cPair(in, out),
+					map[string]any{"phase": label, "known": known, "pending": pending, "sup": supQ, "cycle": cy})
+				i++
+				hc.CfgErr = false
+				switch ph {
+				case 1:
+					// the pending commit reports the DON agrees on: what this oracle observed (flattened, as Outcome does)
+					agreed = agreed[:0]
+					if err == nil {
+						var ks []uint64
+						for c := range obs.CommitReports {
+							ks = append(ks, uint64(c))
+						}
+						vSortU64(ks)
+						for _, c := range ks {
+							agreed = append(agreed, obs.CommitReports[cciptypes.ChainSelector(c)]...)
+						}
+					}
+					if len(agreed) == 0 && len(known) > 0 && r.Chance(1, 3) {
+						// the others agreed on a report although this oracle saw a curse / failure
+						agreed = append(agreed, exectypes.CommitData{SourceChain: cciptypes.ChainSelector(known[0]),
+							SequenceNumberRange: cciptypes.NewSeqNumRange(1, 10), MerkleRoot: cciptypes.Bytes32{1}, Timestamp: time.Unix(1000, 0), BlockNum: 10})
+					}
+				case 2:
+					if err == nil {
+						// attach the observed messages, as the GetMessages outcome does
+						for x := range agreed {
+							cd := &agreed[x]
+							cd.Messages = nil
+							for s := cd.SequenceNumberRange.Start(); s <= cd.SequenceNumberRange.End(); s++ {
+								if msg, ok := obs.Messages[cd.SourceChain][s]; ok {
+									cd.Messages = append(cd.Messages, msg)
+								}
+							}
+						}
+					}
+				case 3:
+					if len(agreed) > 0 {
+						// the report this cycle leads to, presented for acceptance under whatever is cursed THEN
+						var srcs []uint64
+						seen := map[uint64]bool{}
+						rep := cciptypes.ExecutePluginReport{}
+						for _, cd := range agreed {
+							if !seen[uint64(cd.SourceChain)] {
+								seen[uint64(cd.SourceChain)] = true
+								srcs = append(srcs, uint64(cd.SourceChain))
+								rep.ChainReports = append(rep.ChainReports, cciptypes.ExecutePluginReportSingleChain{SourceChainSelector: cd.SourceChain, Messages: cd.Messages})
+							}
+						}
+						var cls2 string
+						rem, cls2 = vC15GenRemote(r, srcs)
+						rb, err := codec.Encode(ctx, rep)
+						if err != nil {
+							t.Fatal(err)
+						}
+						ok, err := p.ShouldAcceptAttestedReport(ctx, 1, ocr3types.ReportWithInfo[[]byte]{Report: rb})
+						o := 0
+						if err != nil {
+							o = 2
+						} else if ok {
+							o = 1
+						}
+						ain := cTup(cNi(1), cListN(srcs), rem.Coq(), cTup(cNi(0), cNi(0), cNi(0), "true", "false", cNi(0)))
+						asink.Emit("C15_cyc_acc_exec", "cycle/"+cls2, true, cPair(ain, cNi(o)), map[string]any{"srcs": srcs})
+					}
+				}
+			}
 		}
 	}
 }
